@@ -27,7 +27,15 @@ RLIMIT = ['resource limit', 'rlimit', 'timed out', 'timeout']
 
 def sh(cmd, timeout=None, cwd=None, env=None):
     t0 = time.time()
-    p = subprocess.run(cmd, stdout=subprocess.PIPE, stderr=subprocess.PIPE, cwd=cwd, env=env, timeout=timeout)
+    try:
+        p = subprocess.run(cmd, stdout=subprocess.PIPE, stderr=subprocess.PIPE, cwd=cwd, env=env, timeout=timeout)
+    except subprocess.TimeoutExpired as e:
+        # a verifier run that does not come back is a timeout diagnostic (UNDECIDED for the main run, "failed as expected"
+        # for a canary), never a crash of the check
+        err = (e.stderr or b'').decode('utf-8', 'replace') if isinstance(e.stderr, (bytes, bytearray)) else ''
+        diag = json.dumps({'level': 'error', 'code': None, 'message': 'verifier timed out after %s s (wall-clock limit of the check)' % timeout,
+                           'spans': [], 'children': [], 'rendered': 'error: verifier timed out'})
+        return -9, '', err + '\n' + diag + '\n', time.time() - t0
     return p.returncode, p.stdout.decode('utf-8', 'replace'), p.stderr.decode('utf-8', 'replace'), time.time() - t0
 
 
@@ -291,6 +299,9 @@ def _run_unit(name, tier='quick', seed=0, extra_items=()):
             ct, clemmas = canary_lemmas(ct)
             ctexts[0] = ct
         cp = os.path.join(wd, '%s_canary%d.rs' % (name, k))
+        # a canary only has to FAIL: a raised per-function rlimit would make Z3 search for the proof of `false` that long
+        ct = re.sub(r'#\[verifier::rlimit\(\d+\)\]', '', ct)
+        ctexts[k] = ct
         open(cp, 'w').write(ct)
         cpaths.append(cp)
     r.obligations = dict(u.obligations)
